@@ -94,6 +94,26 @@ let run_graph_case (idx : int) (toks : string list) (queries : bool) =
   in
   go toks
 
+(* the final graph of a case, written as a Gallina term: the check pastes it into a Coq file next to the same operation list and
+   asks the kernel to evaluate grun on it (cross-check of extraction + this driver against evaluation inside Coq) *)
+let run_graph_raw (toks : string list) =
+  let g = ref (empty : n dag) in
+  let rec go toks =
+    match toks with
+    | [] -> ()
+    | "A" :: tl -> g := snd (add_node !g); go tl
+    | "R" :: a :: tl -> g := snd (remove_node !g (n_of_int (int_of_string a))); go tl
+    | "E" :: s :: d :: x :: tl -> g := snd (add_edge !g (n_of_int (int_of_string s)) (n_of_int (int_of_string d)) (n_of_int (int_of_string x))); go tl
+    | "X" :: s :: d :: tl -> g := snd (remove_edge !g (n_of_int (int_of_string s)) (n_of_int (int_of_string d))); go tl
+    | "O" :: s :: tl -> g := snd (remove_outgoing !g (n_of_int (int_of_string s))); go tl
+    | t :: _ -> failwith ("bad token " ^ t) in
+  go toks;
+  let lst f l = "[" ^ join "; " (List.map f l) ^ "]" in
+  Printf.printf "(mkDag %s %s %s %s)\n"
+    (lst (fun (nd, i) -> Printf.sprintf "(%s, mkNinfo %s %s %s)" (pn nd) (pn i.rank) (lst pn i.kids) (lst pn i.pars)) !g.infos)
+    (lst (fun ((a, b), e) -> Printf.sprintf "((%s, %s), %s)" (pn a) (pn b) (pn e)) !g.edata)
+    (pn !g.last) (pn !g.fresh)
+
 let split_ws (s : string) : string list = List.filter (fun x -> x <> "") (String.split_on_char ' ' (String.trim s))
 
 let iter_lines (file : string) (f : int -> string -> unit) =
@@ -253,6 +273,98 @@ let run_pie_case (idx : int) (toks : string list) (fuel : nat) (with_dump : bool
     incr step
   done
 
+
+(* ------------------------------------------------------------------ Gallina terms for the in-Coq cross-check of the extraction *)
+let gn x = pn x ^ "%N"
+let gz x = "(" ^ pz x ^ ")%Z"
+let glist f l = "[" ^ join "; " (List.map f l) ^ "]"
+let gopt f = function None -> "None" | Some x -> "(Some " ^ f x ^ ")"
+let gexpr = function EConst z -> "(EConst " ^ gz z ^ ")" | EAcc -> "EAcc" | EAccPlus z -> "(EAccPlus " ^ gz z ^ ")"
+let gcond = function CAccEq z -> "(CAccEq " ^ gz z ^ ")" | CAccMod (m, k) -> "(CAccMod " ^ gz m ^ " " ^ gz k ^ ")" | CLastEq z -> "(CLastEq " ^ gz z ^ ")"
+let rec gcode = function
+  | CDone -> "CDone" | CRet e -> "(CRet " ^ gexpr e ^ ")" | CPanic -> "CPanic"
+  | CRead (r, c, k) -> Printf.sprintf "(CRead %s %s %s)" (gn r) (gn c) (gcode k)
+  | CReq (t, c, k) -> Printf.sprintf "(CReq %s %s %s)" (gn t) (gn c) (gcode k)
+  | CWrite (r, c, e, k) -> Printf.sprintf "(CWrite %s %s %s %s)" (gn r) (gn c) (gexpr e) (gcode k)
+  | CWrittenTo (r, c, e, k) -> Printf.sprintf "(CWrittenTo %s %s %s %s)" (gn r) (gn c) (gexpr e) (gcode k)
+  | CRemove (r, c, k) -> Printf.sprintf "(CRemove %s %s %s)" (gn r) (gn c) (gcode k)
+  | CIf (b, th, el) -> Printf.sprintf "(CIf %s %s %s)" (gcond b) (gcode th) (gcode el)
+let gcres = function Consistent -> "Consistent" | Inconsistent -> "Inconsistent" | CErr e -> "(CErr " ^ gz e ^ ")"
+let gbool b = if b then "true" else "false"
+let gevent (e : event) : string = match e with
+  | EBuildStart -> "EBuildStart" | EBuildEnd -> "EBuildEnd"
+  | ERequireStart (t, c) -> Printf.sprintf "(ERequireStart %s %s)" (gn t) (gn c)
+  | ERequireEnd (t, c, st, o) -> Printf.sprintf "(ERequireEnd %s %s %s %s)" (gn t) (gn c) (gz st) (gz o)
+  | EReadStart (r, c) -> Printf.sprintf "(EReadStart %s %s)" (gn r) (gn c)
+  | EReadEnd (r, c, st) -> Printf.sprintf "(EReadEnd %s %s %s)" (gn r) (gn c) (gz st)
+  | EWriteStart (r, c) -> Printf.sprintf "(EWriteStart %s %s)" (gn r) (gn c)
+  | EWriteEnd (r, c, st) -> Printf.sprintf "(EWriteEnd %s %s %s)" (gn r) (gn c) (gz st)
+  | ECheckTaskStart (t, c, st) -> Printf.sprintf "(ECheckTaskStart %s %s %s)" (gn t) (gn c) (gz st)
+  | ECheckTaskEnd (t, c, st, i) -> Printf.sprintf "(ECheckTaskEnd %s %s %s %s)" (gn t) (gn c) (gz st) (gbool i)
+  | ECheckResStart (r, c, st) -> Printf.sprintf "(ECheckResStart %s %s %s)" (gn r) (gn c) (gz st)
+  | ECheckResEnd (r, c, st, x) -> Printf.sprintf "(ECheckResEnd %s %s %s %s)" (gn r) (gn c) (gz st) (gcres x)
+  | EExecStart t -> "(EExecStart " ^ gn t ^ ")"
+  | EExecEnd (t, o) -> Printf.sprintf "(EExecEnd %s %s)" (gn t) (gz o)
+  | ESchedByTaskStart t -> "(ESchedByTaskStart " ^ gn t ^ ")"
+  | ESchedByTaskEnd t -> "(ESchedByTaskEnd " ^ gn t ^ ")"
+  | ECheckReqTaskStart (t, c, st) -> Printf.sprintf "(ECheckReqTaskStart %s %s %s)" (gn t) (gn c) (gz st)
+  | ECheckReqTaskEnd (t, c, st, i) -> Printf.sprintf "(ECheckReqTaskEnd %s %s %s %s)" (gn t) (gn c) (gz st) (gbool i)
+  | ESchedByResStart r -> "(ESchedByResStart " ^ gn r ^ ")"
+  | ESchedByResEnd r -> "(ESchedByResEnd " ^ gn r ^ ")"
+  | ECheckReadResStart (t, c, st) -> Printf.sprintf "(ECheckReadResStart %s %s %s)" (gn t) (gn c) (gz st)
+  | ECheckReadResEnd (t, c, st, x) -> Printf.sprintf "(ECheckReadResEnd %s %s %s %s)" (gn t) (gn c) (gz st) (gcres x)
+  | ESchedTask t -> "(ESchedTask " ^ gn t ^ ")"
+let gakind = function ACycle -> "ACycle" | AHidden -> "AHidden" | AOverlap -> "AOverlap" | ATaskPanic -> "ATaskPanic" | ABug k -> "(ABug " ^ gn k ^ ")"
+let gsres = function RDone o -> "(RDone " ^ gopt gz o ^ ")" | RAbort k -> "(RAbort " ^ gakind k ^ ")" | RFuel -> "RFuel"
+let gsop = function SRequire t -> "(SRequire " ^ gn t ^ ")" | SBottomUp l -> "(SBottomUp " ^ glist gn l ^ ")"
+let gstep = function
+  | HEdit (r, v) -> Printf.sprintf "(HEdit %s %s)" (gn r) (gopt gz v)
+  | HEnv l -> "(HEnv " ^ glist gn l ^ ")"
+  | HSession ops -> "(HSession " ^ glist gsop ops ^ ")"
+let gdep = function
+  | DReserved -> "DReserved"
+  | DRequire (t, c, st) -> Printf.sprintf "(DRequire %s %s %s)" (gn t) (gn c) (gz st)
+  | DRead (r, c, st) -> Printf.sprintf "(DRead %s %s %s)" (gn r) (gn c) (gz st)
+  | DWrite (r, c, st) -> Printf.sprintf "(DWrite %s %s %s)" (gn r) (gn c) (gz st)
+
+(* one line per case: "X <table> @@ <steps> @@ <expected projection>", or "SKIP" for histories with steps outside run_history *)
+let run_pie_raw (toks : string list) (fuel : nat) =
+  let t = { l = toks } in
+  if next t <> "T" then failwith "expected T";
+  let ntasks = num t in
+  let tb = ref [] in
+  for _ = 1 to ntasks do let id = num t in let c = parse_code t in tb := !tb @ [(n_of_int id, c)] done;
+  if next t <> "H" then failwith "expected H";
+  let steps = ref [] in
+  let plain = ref true in
+  while peek t <> None do
+    (match next t with
+     | "E" -> let r = num t in let v = num t in steps := !steps @ [HEdit (n_of_int r, Some (z_of_int v))]
+     | "D" -> let r = num t in steps := !steps @ [HEdit (n_of_int r, None)]
+     | "F" -> let k = num t in let rs = List.init k (fun _ -> n_of_int (num t)) in steps := !steps @ [HEnv rs]
+     | "S" -> let k = num t in
+       let ops = List.init k (fun _ -> match next t with
+           | "q" -> SRequire (n_of_int (num t))
+           | "b" -> let m = num t in SBottomUp (List.init m (fun _ -> n_of_int (num t)))
+           | _ -> plain := false; let _ = num t in let _ = num t in SRequire (n_of_int 0)) in
+       steps := !steps @ [HSession ops]
+     | _ -> plain := false; t.l <- [])
+  done;
+  if not !plain then print_endline "SKIP"
+  else begin
+    let w = ref init_world in
+    let results = List.map (fun s -> let (rs, w') = dsl_run_step !tb fuel !w s in w := w'; rs) !steps in
+    let w = !w in
+    Printf.printf "X %s @@ %s @@ (%s, %s, %s, %s, %s, %s, %s, %s, %s)\n"
+      (glist (fun (k, c) -> "(" ^ gn k ^ ", " ^ gcode c ^ ")") !tb)
+      (glist gstep !steps)
+      (glist (glist gsres) results)
+      (glist (fun (k, v) -> "(" ^ gn k ^ ", " ^ gz v ^ ")") w.outs)
+      (glist (fun (k, v) -> "(" ^ gn k ^ ", " ^ gz v ^ ")") w.rstate)
+      (glist gn w.consistent) (glist gz w.errs) (glist gevent w.trace) (glist gn w.queue)
+      (glist (fun (nd, i) -> Printf.sprintf "(%s, %s, %s, %s)" (gn nd) (gn i.rank) (glist gn i.kids) (glist gn i.pars)) w.gr.infos)
+      (glist (fun ((a, b), d) -> Printf.sprintf "((%s, %s), %s)" (gn a) (gn b) (gdep d)) w.gr.edata)
+  end
 
 (* ------------------------------------------------------------------ tracker probe *)
 let parse_cres (s : string) : cres =
@@ -511,6 +623,8 @@ let () =
     let fuel = nat_of_int 3000 in
     let with_dump = not (List.mem "--nodump" rest) in
     iter_lines file (fun i l -> run_pie_case i (split_ws l) fuel with_dump)
+  | _ :: "pieraw" :: file :: _ -> let fuel = nat_of_int 3000 in iter_lines file (fun _ l -> run_pie_raw (split_ws l) fuel)
+  | _ :: "graphraw" :: file :: _ -> iter_lines file (fun _ l -> run_graph_raw (split_ws l))
   | _ :: "graph" :: file :: rest ->
     let queries = not (List.mem "--noq" rest) in
     iter_lines file (fun i l -> run_graph_case i (split_ws l) queries)
